@@ -186,6 +186,7 @@ def obligations(ctx):
         ob.finish(E)
     dedup_notions(ctx)
     preimage_layout(ctx)
+    aux_data_hash(ctx)
 
 
 def dedup_notions(ctx):
@@ -290,4 +291,90 @@ def preimage_layout(ctx):
                 ob.violation("redeemer count %s, datums %s: the hashed buffer is %s, the ledger's script data format is %s" % ("0" if zero else "> 0", "present" if has_d else "absent", parts, want))
     if len(seen) < 4:
         ob.fail("only the cases %s were reached" % sorted(seen))
+    ob.finish(E)
+
+
+def aux_data_hash(ctx):
+    """First clause of C09: the auxiliary-data hash in the body is the hash of the auxiliary data attached to the
+    transaction as serialized.  build_and_size / build / build_tx_unsafe are executed from MIR on a builder whose
+    auxiliary data is an arbitrary value (or absent); hash_auxiliary_data itself is executed from its MIR down to
+    blake2b256 over AuxiliaryData::to_bytes (both uninterpreted).  Decided: body.auxiliary_data_hash ==
+    blake2b256(to_bytes(the builder's auxiliary data)) exactly when auxiliary data is present, absent otherwise;
+    the released Transaction attaches that same auxiliary data; the body handed to the size estimation is the body
+    returned."""
+    P = ctx.P
+    ob = Obligation(ctx, "c09_e2_aux_data_hash_is_hash_of_attached_data", "auxiliary data absent / an arbitrary value; every other builder field arbitrary (lazy); sub-builder build() results, size estimation uninterpreted",
+                    ["TransactionBuilder::build_and_size", "TransactionBuilder::build", "TransactionBuilder::build_tx_unsafe", "hash_auxiliary_data"], fallback_native="e2n_c09_aux_battery")
+    E = Engine(P, max_loop=4, uninterpreted=[r"TransactionBuilder::get_witness_set$", r"TxInputsBuilder::inputs$", r"TxInputsBuilder::inputs_option$", r"CertificatesBuilder::build$",
+                                             r"WithdrawalsBuilder::build$", r"MintBuilder::build$", r"VotingBuilder::build$", r"VotingProposalBuilder::build$",
+                                             r"TransactionBuilder::get_reference_inputs$", r"::to_option$", r"TransactionBuilder::get_fee_if_set$"])
+    U = E.U
+    has_aux = z3.Bool("has_auxiliary_data")
+    g_size = z3.Bool("size_estimation_ok")
+    def to_bytes(E_, c, a):
+        v = VM.deref(E_, a[0])
+        return VOpaque("aux_bytes", [], z3.Function("aux_to_bytes", U, U)(E_.as_u(v)))
+    E.extra_intrinsics[r"AuxiliaryData::to_bytes$"] = to_bytes
+    def blake(E_, c, a):
+        buf = VM.deref(E_, a[0])
+        return VOpaque("digest", [], z3.Function("blake2b256", U, U)(E_.as_u(buf)))
+    E.extra_intrinsics[r"(^|::)blake2b256$"] = blake
+    E.extra_intrinsics[r"AuxiliaryDataHash as From<\[u8; 32\]>>::from$"] = lambda E_, c, a: VOpaque("auxhash", [], z3.Function("hash_from_digest", U, U)(E_.as_u(VM.deref(E_, a[0]))))
+    def fake(E_, c, a):
+        E_.trace.append(("sized_body", a[1]))
+        if E_.choose([g_size, z3.Not(g_size)], "fake_full_tx") == 1:
+            return VEnum("Result", "Err", [VOpaque("err")])
+        return VEnum("Result", "Ok", [E_.mk_struct("Transaction", body=a[1], witness_set=VLazy("fake_ws", "TransactionWitnessSet"), is_valid=VBool(z3.BoolVal(True)),
+                                                   auxiliary_data=VM.deref(E_, a[0]).fields[P.struct_fields["TransactionBuilder"].index("auxiliary_data")])])
+    E.extra_intrinsics[r"(^|::)fake_full_tx$"] = fake
+    E.extra_intrinsics[r"Transaction::to_bytes$"] = lambda E_, c, a: VSeq([], "vec")
+    size = E.sym_int("full_size", "usize")
+    E.extra_intrinsics[r"Vec::<u8>::len$"] = lambda E_, c, a: VInt(size.t, "usize")
+
+    def mk():
+        aux = opt(VLazy("aux", "AuxiliaryData")) if E.choose([has_aux, z3.Not(has_aux)], "aux present") == 0 else opt(None)
+        tb = E.mk_struct("TransactionBuilder", auxiliary_data=aux)
+        return [R(tb, "self")]
+    want_hash = z3.Function("hash_from_digest", U, U)(z3.Function("blake2b256", U, U)(z3.Function("aux_to_bytes", U, U)(z3.Const("lazy_aux@0", U))))
+    BF = P.struct_fields["TransactionBody"]
+    nok = 0
+    for entry in ("TransactionBuilder::build", "TransactionBuilder::build_tx_unsafe"):
+        for o in E.explore(entry, mk):
+            if o.kind != "return":
+                ob.vc("no panic in %s (%s %s)" % (entry, o.kind, o.msg[:80]), o.pc, z3.BoolVal(False)); continue
+            if o.value.variant != "Ok":
+                continue
+            nok += 1
+            E.enter(o)
+            sol = z3.Solver(); sol.add(*o.pc)
+            present = sol.check(has_aux) == z3.sat
+            if present and sol.check(z3.Not(has_aux)) == z3.sat:
+                ob.fail("path does not decide the presence of auxiliary data"); continue
+            tx = o.value.fields[0]
+            if entry.endswith("build_tx_unsafe"):
+                TF = P.struct_fields["Transaction"]
+                body = VM.deref(E, tx.fields[TF.index("body")])
+                att = VM.deref(E, tx.fields[TF.index("auxiliary_data")])
+                if present:
+                    if not (isinstance(att, VEnum) and att.variant == "Some"):
+                        ob.violation("auxiliary data present in the builder but the released transaction attaches none"); continue
+                    ob.vc("released transaction attaches the builder's auxiliary data", o.pc, E.as_u(att.fields[0]) == z3.Const("lazy_aux@0", U))
+                elif not (isinstance(att, VEnum) and att.variant == "None"):
+                    ob.violation("no auxiliary data in the builder but the released transaction attaches some"); continue
+            else:
+                body = VM.deref(E, tx)
+            if not isinstance(body, VStruct):
+                ob.fail("body is not a struct value: %r" % (body,)); continue
+            h = VM.deref(E, body.fields[BF.index("auxiliary_data_hash")])
+            if present:
+                if not (isinstance(h, VEnum) and h.variant == "Some"):
+                    ob.violation("%s: auxiliary data present but the body carries no auxiliary-data hash" % entry); continue
+                ob.vc("%s: body.auxiliary_data_hash == blake2b256(to_bytes(attached auxiliary data))" % entry, o.pc, E.as_u(h.fields[0]) == want_hash)
+            elif not (isinstance(h, VEnum) and h.variant == "None"):
+                ob.violation("%s: no auxiliary data but the body carries an auxiliary-data hash" % entry)
+            sb = [t for t in o.trace if t[0] == "sized_body"]
+            if len(sb) != 1:
+                ob.fail("size estimation ran %d times" % len(sb))
+    if nok < 4:
+        ob.fail("only %d Ok paths (expected both entries x auxiliary data present / absent)" % nok)
     ob.finish(E)
